@@ -12,7 +12,7 @@ mutual
 /-- the document of a wrapper-free value written with the pending anchor `a` -/
 def plainOut (a : Nat) : Val → Out
   | .leaf k => .leaf (if k.takesAnchor then a else 0) k
-  | .node takes isMap items => .node (if takes then a else 0) isMap (plainOutList items)
+  | .node isMap items => .node a isMap (plainOutList items)
   | .strong .. => .leaf 0 .null
   | .weak .. => .leaf 0 .null
 def plainOutList : List Val → List Out
@@ -23,7 +23,7 @@ end
 mutual
 def plainTyOf : Val → Ty
   | .leaf _ => .leaf false
-  | .node _ _ items => .node (plainTyOfList items)
+  | .node _ items => .node (plainTyOfList items)
   | .strong .. => .leaf false
   | .weak .. => .leaf false
 def plainTyOfList : List Val → List Ty
@@ -98,30 +98,18 @@ theorem ser_plain (H : Heap) : ∀ fuel, SerPlainIH fuel H := by
           · exact h0
           · simp only [takesRoot] at h0; exact absurd h0 htk
         exact ⟨by rw [← h.1]; simp [plainOut, htk], by rw [← h.2, SerSt.pending_none_eta s hn]⟩
-    | node takes isMap items =>
+    | node isMap items =>
       simp only [plainV] at hp
       simp only [serVal] at h
-      cases hl : traverse (fun st x => serVal fuel H st x)
-          (if takes = true then { s with pending := none } else s) items with
+      cases hl : traverse (fun st x => serVal fuel H st x) { s with pending := none } items with
       | error e => rw [hl] at h; cases h
       | ok r =>
         obtain ⟨outs, s2⟩ := r
         rw [hl] at h
         simp only [Except.ok.injEq, Prod.mk.injEq] at h
         obtain ⟨rfl, rfl⟩ := h
-        by_cases htk : takes = true
-        · simp only [htk, if_true] at hl ⊢
-          obtain ⟨f1, f2⟩ := ser_plain_list fuel H ih items _ outs s2 hp rfl hl
-          exact ⟨by rw [f1]; simp [plainOut], f2⟩
-        · have htk' : takes = false := by simpa using htk
-          subst htk'
-          simp only [Bool.false_eq_true, if_false] at hl ⊢
-          have hn : s.pending = none := by
-            rcases hpend with h0 | h0
-            · exact h0
-            · simp [takesRoot] at h0
-          obtain ⟨f1, f2⟩ := ser_plain_list fuel H ih items _ outs s2 hp hn hl
-          exact ⟨by rw [f1]; simp [plainOut], by rw [f2, SerSt.pending_none_eta s hn]⟩
+        obtain ⟨f1, f2⟩ := ser_plain_list fuel H ih items _ outs s2 hp rfl hl
+        exact ⟨by rw [f1]; simp [plainOut], f2⟩
 
 /-! ### the derived type of a wrapper-free value -/
 
@@ -159,7 +147,7 @@ theorem tyOf_plain (H : Heap) : ∀ (fuel : Nat) (pv : Val) (ty : Ty), plainV pv
     | strong k tid p => simp [plainV] at hp
     | weak k tid p => simp [plainV] at hp
     | leaf k => simp [tyOf] at h; rw [← h]; rfl
-    | node takes isMap items =>
+    | node isMap items =>
       simp only [plainV] at hp
       simp only [tyOf, Option.map_eq_some_iff] at h
       obtain ⟨tys, h1, h2⟩ := h
@@ -187,14 +175,14 @@ theorem de_plain (onAlias : Ty → Nat → DeSt → DeRes) (live : Bool) :
     simp only [plainTyOf, plainOut, deCore, probeRejects, Bool.false_and, Bool.false_eq_true, if_false,
       plainOf, recordDef, Out.rootAnchor]
     rfl
-  | .node takes isMap items, a, D, hp => by
+  | .node isMap items, a, D, hp => by
     simp only [plainV] at hp
     simp only [plainTyOf, plainOut, deCore, plainOf, recordDef, Out.rootAnchor]
-    by_cases hc : (live && (if takes = true then a else 0) != 0) = true
+    by_cases hc : (live && a != 0) = true
     · simp only [hc, if_true]
       rw [de_plain_list onAlias live items _ hp]
       simp
-    · have hc' : (live && (if takes = true then a else 0) != 0) = false := by simpa using hc
+    · have hc' : (live && a != 0) = false := by simpa using hc
       simp only [hc', Bool.false_eq_true, if_false]
       rw [de_plain_list onAlias live items _ hp]
   | .strong k tid p, _, _, hp => by simp [plainV] at hp
@@ -217,7 +205,7 @@ end
 theorem rootAnchor_plainOut (a : Nat) (pv : Val) (ht : takesRoot pv = true) : (plainOut a pv).rootAnchor = a := by
   cases pv with
   | leaf k => simp only [takesRoot] at ht; simp [plainOut, Out.rootAnchor, ht]
-  | node takes m items => simp only [takesRoot] at ht; simp [plainOut, Out.rootAnchor, ht]
+  | node m items => simp [plainOut, Out.rootAnchor]
   | strong k t p => simp [takesRoot] at ht
   | weak k t p => simp [takesRoot] at ht
 
@@ -340,10 +328,9 @@ theorem de_weak_alias (k : Kind) (tid id : Nat) (hid : id ≠ 0) (payload : Val)
     simp only [deE, deCore, Out.rootAnchor, hcur, hget, Bool.false_eq_true, if_false]
     simp [popCtx, pushCtx, hid]
 
-theorem de_weak_dangling_fails (k : Kind) (tid : Nat) (D : DeSt) (hstack : D.stack = []) (r : RVal × Out × DeSt) :
-    de (.weak k tid) (.leaf 0 .null) D ≠ .ok r := by
-  have hc : currentAnchorId D k = none := by simp [currentAnchorId, hstack]
-  simp [de, deCore, Out.rootAnchor, current_no_push, hc]
+theorem de_weak_dangling (k : Kind) (tid : Nat) (D : DeSt) :
+    de (.weak k tid) (.leaf 0 .null) D = .ok (.weakNull k, .leaf 0 .null, D) := by
+  simp [de, deCore, Out.rootAnchor, Out.isNull]
 
 /-! ### records with one level of sharing -/
 
@@ -365,7 +352,7 @@ def FlatItem (H : Heap) (kindOf : Ptr → Kind × Nat) : Val → Prop
   | .weak k tid p => kindOf p = (k, tid) ∧
       ∀ payload, H.lookup p = some payload → plainV payload = true ∧ takesRoot payload = true
   | .leaf _ => True
-  | .node _ _ items => plainVList items = true
+  | .node _ items => plainVList items = true
 
 theorem ser_flat_plain (fuel : Nat) (H : Heap) (pv : Val) (hp : plainV pv = true) (S : SerSt)
     (hpend : S.pending = none) (o : Out) (S' : SerSt) (h : serVal fuel H S pv = .ok (o, S')) :
@@ -374,20 +361,34 @@ theorem ser_flat_plain (fuel : Nat) (H : Heap) (pv : Val) (hp : plainV pv = true
   rw [hpend] at e1
   exact ⟨e1, by rw [e2, SerSt.pending_none_eta S hpend]⟩
 
-theorem ser_flat_fresh (fuel : Nat) (H : Heap) (k : Kind) (p : Ptr) (payload : Val)
-    (hp : plainV payload = true) (ht : takesRoot payload = true) (S : SerSt)
-    (o : Out) (s2 : SerSt)
-    (h : serVal fuel H (SerSt.mk ((p, S.next) :: S.anchors) (S.next + 1) (some S.next) (lockCell k p S.held))
-      payload = .ok (o, s2)) :
-    o = plainOut S.next payload ∧
-      ({ s2 with held := [] } : SerSt) = SerSt.mk ((p, S.next) :: S.anchors) (S.next + 1) none [] := by
-  obtain ⟨e1, e2⟩ := ser_plain H fuel _ payload o s2 hp (Or.inr ht) h
-  refine ⟨by simpa using e1, ?_⟩
-  rw [e2]
+theorem serPtr_flat (fuel : Nat) (H : Heap) (k : Kind) (p : Ptr) (payload : Val)
+    (hp : plainV payload = true) (ht : takesRoot payload = true)
+    (S : SerSt) (hpend : S.pending = none) (hheld : S.held = []) (o : Out) (S' : SerSt)
+    (h : serPtr (fun st x => serVal fuel H st x) S k p payload = .ok (o, S')) :
+    (∃ id, S.anchors.lookup p = some id ∧ o = .alias id ∧ S' = S) ∨
+    (S.anchors.lookup p = none ∧ o = plainOut S.next payload ∧
+      S' = SerSt.mk ((p, S.next) :: S.anchors) (S.next + 1) none []) := by
+  unfold serPtr at h
+  rcases alloc_cases S p hpend with ⟨id, hl1, ha⟩ | ⟨hl1, ha⟩
+  · rw [ha] at h
+    simp only [Except.ok.injEq, Prod.mk.injEq] at h
+    exact Or.inl ⟨id, hl1, h.1.symm, h.2.symm⟩
+  · rw [ha] at h
+    simp only at h
+    split at h
+    · cases h
+    · split at h
+      · cases h
+      · rename_i x o2 s2 hrec
+        simp only [Except.ok.injEq, Prod.mk.injEq] at h
+        obtain ⟨rfl, rfl⟩ := h
+        obtain ⟨e1, e2⟩ := ser_plain H fuel _ payload o2 s2 hp (Or.inr ht) hrec
+        refine Or.inr ⟨hl1, by simpa using e1, ?_⟩
+        rw [e2, hheld]
 
 theorem ser_flat_strong (fuel : Nat) (H : Heap) (k : Kind) (tid : Nat) (p : Ptr) (payload : Val)
     (hl : H.lookup p = some payload) (hp : plainV payload = true) (ht : takesRoot payload = true)
-    (S : SerSt) (hheld : S.held = []) (o : Out) (S' : SerSt)
+    (S : SerSt) (hpend : S.pending = none) (hheld : S.held = []) (o : Out) (S' : SerSt)
     (h : serVal fuel H S (.strong k tid p) = .ok (o, S')) :
     (∃ id, S.anchors.lookup p = some id ∧ o = .alias id ∧ S' = S) ∨
     (S.anchors.lookup p = none ∧ o = plainOut S.next payload ∧
@@ -395,26 +396,12 @@ theorem ser_flat_strong (fuel : Nat) (H : Heap) (k : Kind) (tid : Nat) (p : Ptr)
   cases fuel with
   | zero => simp [serVal] at h
   | succ fuel =>
-    simp only [serVal] at h
-    split at h
-    · cases h
-    · rcases alloc_cases S p with ⟨id, hl1, ha⟩ | ⟨hl1, ha⟩
-      · rw [ha] at h
-        simp only [Except.ok.injEq, Prod.mk.injEq] at h
-        exact Or.inl ⟨id, hl1, h.1.symm, h.2.symm⟩
-      · rw [ha] at h
-        simp only [hl] at h
-        split at h
-        · cases h
-        · rename_i x o2 s2 hrec
-          simp only [Except.ok.injEq, Prod.mk.injEq] at h
-          obtain ⟨rfl, rfl⟩ := h
-          obtain ⟨e1, e2⟩ := ser_flat_fresh fuel H k p payload hp ht S o2 s2 hrec
-          exact Or.inr ⟨hl1, e1, by rw [hheld]; exact e2⟩
+    simp only [serVal, hl] at h
+    exact serPtr_flat fuel H k p payload hp ht S hpend hheld o S' h
 
 theorem ser_flat_weak (fuel : Nat) (H : Heap) (k : Kind) (tid : Nat) (p : Ptr)
     (hpl : ∀ payload, H.lookup p = some payload → plainV payload = true ∧ takesRoot payload = true)
-    (S : SerSt) (hheld : S.held = []) (o : Out) (S' : SerSt)
+    (S : SerSt) (hpend : S.pending = none) (hheld : S.held = []) (o : Out) (S' : SerSt)
     (h : serVal fuel H S (.weak k tid p) = .ok (o, S')) :
     (H.lookup p = none ∧ o = .leaf 0 .null ∧ S' = S) ∨
     (∃ id, S.anchors.lookup p = some id ∧ o = .alias id ∧ S' = S) ∨
@@ -427,27 +414,14 @@ theorem ser_flat_weak (fuel : Nat) (H : Heap) (k : Kind) (tid : Nat) (p : Ptr)
     cases hl : H.lookup p with
     | none =>
       rw [hl] at h
-      simp only [Except.ok.injEq, Prod.mk.injEq] at h
-      exact Or.inl ⟨rfl, h.1.symm, h.2.symm⟩
+      simp only [hpend, Option.getD_none, Except.ok.injEq, Prod.mk.injEq] at h
+      exact Or.inl ⟨rfl, h.1.symm, by rw [← h.2]; exact SerSt.pending_none_eta S hpend⟩
     | some payload =>
       obtain ⟨hp, ht⟩ := hpl payload hl
       rw [hl] at h
-      simp only at h
-      rcases alloc_cases S p with ⟨id, hl1, ha⟩ | ⟨hl1, ha⟩
-      · rw [ha] at h
-        simp only [Except.ok.injEq, Prod.mk.injEq] at h
-        exact Or.inr (Or.inl ⟨id, hl1, h.1.symm, h.2.symm⟩)
-      · rw [ha] at h
-        simp only at h
-        split at h
-        · cases h
-        · split at h
-          · cases h
-          · rename_i x o2 s2 hrec
-            simp only [Except.ok.injEq, Prod.mk.injEq] at h
-            obtain ⟨rfl, rfl⟩ := h
-            obtain ⟨e1, e2⟩ := ser_flat_fresh fuel H k p payload hp ht S o2 s2 hrec
-            exact Or.inr (Or.inr ⟨payload, rfl, hl1, e1, by rw [hheld]; exact e2⟩)
+      rcases serPtr_flat fuel H k p payload hp ht S hpend hheld o S' h with h1 | ⟨a1, a2, a3⟩
+      · exact Or.inr (Or.inl h1)
+      · exact Or.inr (Or.inr ⟨payload, rfl, a1, a2, a3⟩)
 
 theorem tyOf_strong (fuel : Nat) (H : Heap) (k : Kind) (tid : Nat) (p : Ptr) (payload : Val)
     (hl : H.lookup p = some payload) (hp : plainV payload = true) (ty : Ty)
@@ -498,30 +472,32 @@ theorem Ext.trans {S0 : SerSt} {D0 : DeSt} {S1 : SerSt} {D1 : DeSt} {S2 : SerSt}
    Nat.le_trans h1.2.2.2 h2.2.2.2⟩
 
 /-- how a field of the original record and a field of the rebuilt record correspond -/
-def FieldRel (S : SerSt) (D : DeSt) : Val → RVal → Prop
+def FieldRel (H : Heap) (S : SerSt) (D : DeSt) : Val → RVal → Prop
   | .strong k tid p, rv => ∃ id q, S.anchors.lookup p = some id ∧ D.store.lookup (k, id) = some (q, tid) ∧
       rv = .strong k q
-  | .weak k tid p, rv => ∃ id q, S.anchors.lookup p = some id ∧ D.store.lookup (k, id) = some (q, tid) ∧
-      rv = .weak k q
+  | .weak k tid p, rv => (H.lookup p = none ∧ rv = .weakNull k) ∨
+      (H.lookup p ≠ none ∧ ∃ id q, S.anchors.lookup p = some id ∧ D.store.lookup (k, id) = some (q, tid) ∧
+        rv = .weak k q)
   | .leaf lk, rv => rv = .leaf lk
-  | .node t m items, rv => rv = plainOf (.node t m items)
+  | .node m items, rv => rv = plainOf (.node m items)
 
-theorem FieldRel.ext {S : SerSt} {D : DeSt} {S' : SerSt} {D' : DeSt} (h : Ext S D S' D') (it : Val) (rv : RVal)
-    (hr : FieldRel S D it rv) : FieldRel S' D' it rv := by
+theorem FieldRel.ext {H : Heap} {S : SerSt} {D : DeSt} {S' : SerSt} {D' : DeSt} (h : Ext S D S' D') (it : Val)
+    (rv : RVal) (hr : FieldRel H S D it rv) : FieldRel H S' D' it rv := by
   cases it with
   | leaf lk => exact hr
-  | node t m items => exact hr
+  | node m items => exact hr
   | strong k tid p =>
     obtain ⟨id, q, h1, h2, h3⟩ := hr
     exact ⟨id, q, h.1 p id h1, h.2.1 _ _ h2, h3⟩
   | weak k tid p =>
-    obtain ⟨id, q, h1, h2, h3⟩ := hr
-    exact ⟨id, q, h.1 p id h1, h.2.1 _ _ h2, h3⟩
+    rcases hr with hr | ⟨hl, id, q, h1, h2, h3⟩
+    · exact Or.inl hr
+    · exact Or.inr ⟨hl, id, q, h.1 p id h1, h.2.1 _ _ h2, h3⟩
 
 /-- field-by-field correspondence of two records -/
-def FieldsRel (S : SerSt) (D : DeSt) : List Val → List RVal → Prop
+def FieldsRel (H : Heap) (S : SerSt) (D : DeSt) : List Val → List RVal → Prop
   | [], [] => True
-  | it :: its, v :: vs => FieldRel S D it v ∧ FieldsRel S D its vs
+  | it :: its, v :: vs => FieldRel H S D it v ∧ FieldsRel H S D its vs
   | [], _ :: _ => False
   | _ :: _, [] => False
 
